@@ -1024,7 +1024,10 @@ class Controller:
                     ))
                     raise_with_traceback(e)
 
-                if comp not in self.comp_staged_in:
+                # VV: A Subject that is asked to finish before it was ever submitted (e.g. it is put down because its
+                #     own producers were shutdown) is recorded in comp_staged_in too but it never launched. Its final
+                #     state is not visible yet: wait for it (the Subject is then no longer an active predecessor)
+                if comp not in self.comp_staged_in or comp.finishCalled:
                     return False
 
             return True
